@@ -1176,12 +1176,12 @@ def h_replace(I, st, callee, target, args, ctx):
 
 # ---- slices, iterators -------------------------------------------------------------------------
 
-@ext("core:[T]::len")
+@ext("core:[T]::len", "alloc:Vec<T, A>::len", "heapless:Vec<T, N>::len")
 def h_slice_len(I, st, callee, target, args, ctx):
     return [(st, I.len_of(st, args[0]))]
 
 
-@ext("core:[T]::is_empty")
+@ext("core:[T]::is_empty", "alloc:Vec<T, A>::is_empty", "heapless:Vec<T, N>::is_empty")
 def h_slice_is_empty(I, st, callee, target, args, ctx):
     l = lin_of(st, I.len_of(st, args[0]))
     return [(st, I.cmp(st, "Eq", l, Lin.const(0)))]
@@ -2205,3 +2205,136 @@ def h_char_from(I, st, callee, target, args, ctx):
     if isinstance(v, VInt):
         return [(st, VInt(32, False, lin=lin_of(st, v)))]
     raise Unanalysable("char::from %r" % (v,))
+
+
+# ---- predicate-driven byte runs (take_while*, take_till*) and ASCII class predicates -----------
+
+for _k, _kind in [
+    ("nom::bytes::complete::take_while_m_n", "take_while_m_n"),
+    ("nom::bytes::complete::take_while", "take_while"),
+    ("nom::bytes::complete::take_while1", "take_while1"),
+    ("nom::bytes::complete::take_till", "take_till"),
+    ("nom::bytes::complete::take_till1", "take_till1"),
+]:
+    EXT[_k] = _mk(_kind)
+    CONTRACT[_k] = "total"
+
+
+def byte_class_of(I, st, f, what):
+    """the set of byte values on which a predicate (closure without symbolic captures, or a local
+    function) returns true; exact or Unanalysable"""
+    if isinstance(f, VRef):
+        f = I.read_ref(st, f)
+    if isinstance(f, VClosure):
+        defn, ups = f.defn, list(f.upvars)
+    elif isinstance(f, VFn):
+        defn, ups = f.callee["def"], []
+    else:
+        raise Unanalysable("%s: predicate is %r" % (what, f))
+    if defn not in I.f.bodies:
+        raise Unanalysable("%s: predicate %s has no analysable body" % (what, defn))
+    argsets = [IntSet.range(0, 255)]
+    for u in ups:
+        if isinstance(u, VRef):
+            u = I.read_ref(st, u)
+        if not isinstance(u, VInt) or not lin_of(st, u).is_const():
+            raise Unanalysable("%s: predicate captures a non-constant value" % what)
+        argsets.append(IntSet.of(lin_of(st, u).c))
+    res, atoms = I.leaf_summary(defn, argsets)
+    yes, no = IntSet.empty(), IntSet.empty()
+    for s2, rv in res:
+        if not isinstance(rv, VBool):
+            raise Unanalysable("%s: predicate returned %r" % (what, rv))
+        d = s2.decide(rv.cond)
+        if d is True:
+            yes = yes.union(s2.aset(atoms[0]))
+        elif d is False:
+            no = no.union(s2.aset(atoms[0]))
+        else:
+            for s3 in s2.copy().assume(rv.cond, True):
+                yes = yes.union(s3.aset(atoms[0]))
+            for s3 in s2.copy().assume(rv.cond, False):
+                no = no.union(s3.aset(atoms[0]))
+    yes, no = yes.intersect(IntSet.range(0, 255)), no.intersect(IntSet.range(0, 255))
+    if not yes.intersect(no).is_empty() or yes.union(no) != IntSet.range(0, 255):
+        raise Unanalysable("%s: predicate is not a function of the byte alone" % what)
+    return yes
+
+
+def _run_parser(kind):
+    def p(I, st, pv, inp, ctx):
+        sl = _byte_input(inp)
+        if kind == "take_while_m_n":
+            m = const_of(st, pv.args[0], "take_while_m_n m")
+            n = const_of(st, pv.args[1], "take_while_m_n n")
+            if m is None or n is None:
+                raise Unanalysable("take_while_m_n with non-constant bounds")
+            cls = byte_class_of(I, st, pv.args[2], kind)
+        else:
+            m, n = (1 if kind.endswith("1") else 0), None
+            cls = byte_class_of(I, st, pv.args[0], kind)
+            if kind.startswith("take_till"):
+                cls = IntSet.range(0, 255).minus(cls)
+        param = (cls.iv, m, n)
+        bkey = sl.buf if not isinstance(sl.buf, tuple) else tuple(sl.buf)
+        out = []
+        if m > 0:
+            ok, no = _fork(st, ("run", bkey, sl.start.key(), param))
+        else:
+            ok, no = st, None
+        if ok is not None:
+            q = _fresh_pos(ok, "run", sl.start)
+            ql = Lin.atom(q)
+            total = sl.start + sl.len
+            ok = _add_fact_le0(ok, sl.start + m - ql)
+            if ok is not None and n is not None:
+                ok = _add_fact_le0(ok, ql - sl.start - n)
+            ok = _add_fact_le0(ok, ql - total) if ok is not None else None
+            if ok is not None and (m == 0 or (_constrain_byte(ok, sl.buf, sl.start, cls) and _constrain_byte(ok, sl.buf, ql - 1, cls))):
+                ok.event("g", "run", param, sl.buf, sl.start, ql)
+                out.append((ok, ok_pair(VSlice(sl.buf, ql, total - ql), VSlice(sl.buf, sl.start, ql - sl.start))))
+        if no is not None:
+            no.event("gfail", "run", param, sl.buf, sl.start)
+            out.append((no, nom_err(I, "Error", VOpaque("TakeWhile"))))
+        return out
+    return p
+
+
+for _kind in ("take_while_m_n", "take_while", "take_while1", "take_till", "take_till1"):
+    PARSERS[_kind] = _run_parser(_kind)
+
+
+_ASCII_CLASSES = {
+    "is_ascii_alphabetic": IntSet([(65, 90), (97, 122)]),
+    "is_ascii_digit": IntSet([(48, 57)]),
+    "is_ascii_uppercase": IntSet([(65, 90)]),
+    "is_ascii_lowercase": IntSet([(97, 122)]),
+    "is_ascii_alphanumeric": IntSet([(48, 57), (65, 90), (97, 122)]),
+    "is_ascii_hexdigit": IntSet([(48, 57), (65, 70), (97, 102)]),
+    "is_ascii_whitespace": IntSet([(9, 10), (12, 13), (32, 32)]),
+    "is_ascii_punctuation": IntSet([(33, 47), (58, 64), (91, 96), (123, 126)]),
+    "is_ascii_graphic": IntSet([(33, 126)]),
+    "is_ascii_control": IntSet([(0, 31), (127, 127)]),
+    "is_ascii": IntSet([(0, 127)]),
+}
+
+
+def _ascii_pred(cls):
+    def h(I, st, callee, target, args, ctx):
+        v = deref(I, st, args[0])
+        if not isinstance(v, VInt):
+            raise Unanalysable("ascii class predicate on %r" % (v,))
+        lin = lin_of(st, v)
+        sa = lin.single_atom()
+        if lin.is_const():
+            return [(st, VBool(cls.contains(lin.c)))]
+        if sa and sa[1] == 1:
+            return [(st, VBool(("in", sa[0], cls.shift(-sa[2]))))]
+        raise Unanalysable("ascii class predicate on a compound value")
+    return h
+
+
+for _n, _c in _ASCII_CLASSES.items():
+    for _t in ("u8", "char"):
+        EXT["core:%s::%s" % (_t, _n)] = _ascii_pred(_c)
+        CONTRACT["core:%s::%s" % (_t, _n)] = "total"
